@@ -574,9 +574,11 @@ def fam_sa_mixed(params, tier, acc):
                 case = dict(w=w, h=h, cap=4, dead=[], reservations=[],
                             vertices=[[a, b] for a, b in zip(names, needs)],
                             nets=nets, placer=placer, fam="sa_mixed",
-                            effort=1.0, steps=4)
+                            effort=1.0,
+                            steps=4 if tier == "quick" else 6)
                 acc.nontrivial += 1
-                run_case(case, acc, tier, 1 if tier == "quick" else 2)
+                # (two deviations take > 30 min: one, with more steps)
+                run_case(case, acc, tier, 1)
     acc.sample(dict(fam="sa_mixed", placer=placer, sets=sets))
 
 
